@@ -14,6 +14,10 @@
 (*   out, oty - the observed result text and its Python type                *)
 (*   same  - pass-through only: same response object, headers unchanged     *)
 (*   utf8  - whether the input bytes are valid UTF-8                        *)
+(*   pay   - the texts the component classes of the document's markers      *)
+(*           contribute verbatim (Component.js / .css, "safe" Media tags):  *)
+(*           [k: block kind, s: text, at: where the harness saw it in the   *)
+(*           block, 0-based, or -1]                                         *)
 (* The observed text must be, character for character, the concretisation   *)
 (* of one of the results DepsInsert admits.  A call that is not, is either  *)
 (* explained exactly by a named deviation (verdict DEV + key: the observed  *)
@@ -37,10 +41,14 @@ Blk(tr) == [css |-> tr.css, js |-> tr.js, frag |-> tr.frag,
 AdmissibleTexts(tr) ==
   {Flat(Doc(tr), o, Text(tr), Blk(tr), "") : o \in AdmissibleVia(Doc(tr), tr.via, tr.mode)}
 
+\* "bytes" ties the observed text to the blocks (the blocks are contiguous sub-texts of it wherever the
+\* specification inserts them); "payload" ties the blocks to the components' own texts: for every kind
+\* of block the call inserts, each carried text is in the block byte for byte.
 Failing(tr) ==
-  {c \in {"raised", "bytes", "type", "untouched"} :
+  {c \in {"raised", "bytes", "type", "untouched", "payload"} :
      CASE c = "raised"    -> tr.res # "ok"
        [] c = "bytes"     -> tr.res = "ok" /\ tr.out \notin AdmissibleTexts(tr)
+       [] c = "payload"   -> tr.res = "ok" /\ NotCarried(Blk(tr), tr.pay, InsertedKinds(Doc(tr), tr.via, tr.mode)) # {}
        [] c = "type"      -> tr.res = "ok" /\ tr.oty # ExpectedType(tr.via, tr.ity)
        [] c = "untouched" -> tr.res = "ok" /\ tr.via \in {"mw_other", "mw_stream"} /\ ~tr.same}
 
